@@ -138,11 +138,11 @@ theorem _compare_frame_rankings_eq_model (ref est : List Nat) (tr : Bool) :
     cases tr
     · simp only [hrm, tee, combinations2, levelPairs, Bool.false_eq_true, if_false, if_true, pure_eq_ok, ok_bind,
         dictGetD_reverse_lookupCount hk, npSum, _compare_frame_rankings_loop2_eq, List.map_reverse,
-        getSlice_index ref est hle, Nat.zero_add, decide_eq_true_eq, Nat.cast_eq_zero]
+        getSlice_index ref est hle, Nat.zero_add, decide_eq_true_eq, @eq_comm _ (0 : Rat), Nat.cast_eq_zero]
       split <;> rfl
     · simp only [hrm, tee, combinations2, levelPairs, if_true, pure_eq_ok, ok_bind,
         dictGetD_reverse_lookupCount hk, npSum, _compare_frame_rankings_loop2_eq, List.map_reverse,
-        getSlice_index ref est hle, Nat.zero_add, decide_eq_true_eq, Nat.cast_eq_zero]
+        getSlice_index ref est hle, Nat.zero_add, decide_eq_true_eq, @eq_comm _ (0 : Rat), Nat.cast_eq_zero]
       split <;> rfl
 
 /-- the default of the translated signature: `transitive=False` -/
